@@ -204,3 +204,43 @@ def _(inp):
 
 
 t.scope(lambda tier, rng: [dict(defuse=d, remote=r, local=l) for d in ('always', 'remote', 'nonlocal', 'never') for r in (True, False) for l in (True, False)])
+
+
+# ------------------------------------------------------------------ XMLResourceManager.__exit__: the loaders' exceptions are never swallowed (C11)
+t = Target('resources.XMLResourceManager.__exit__', ['C11', 'C13', 'C12'], 'xmlschema/resources/xml_resource.py', 'XMLResourceManager.__exit__',
+           note='the context manager around both loaders returns a false value on every path - XMLResourceExceeded, XMLResourceForbidden, XMLResourceBlocked and parse errors raised inside '
+                'the with block always propagate - and closes the stream it opened exactly when the resource has no seekable file object of its own',
+           assumes=['fp.seekable() is an uninterpreted Boolean; close() has no result'])
+
+
+@t.symbolic
+def _(run):
+    ex = run.exec(); st = new_state()
+    fp_none = z3.Bool('resource_fp_none'); seekable = z3.Bool('resource_fp_seekable')
+    st.objf['rfp'] = {}; st.objf['mfp'] = {}
+    st.objf['resource'] = {'fp': VOpt(fp_none, VObj('rfp'))}
+    st.objf['self'] = {'resource': VObj('resource'), 'fp': VObj('mfp')}
+    st.env.update(self=VObj('self'), exc_type=OPAQUE, exc_value=OPAQUE, exc_tb=OPAQUE)
+    st.ghost['closed'] = 0
+    ex.callees['seekable'] = lambda e, s, r, a, k: VBool(seekable)
+
+    def close(e, s, r, a, k):
+        if isinstance(r, VObj) and r.name == 'mfp': s.ghost['closed'] += 1
+        return NONE
+    ex.callees['close'] = close
+    pre = z3.BoolVal(True); run.inputs.update(resource_fp_none=fp_none, resource_fp_seekable=seekable)
+    outs = ex.run(st, pre)
+
+    def never_swallows(kind, v, s):
+        if kind == 'fall': return z3.BoolVal(True)
+        if kind != 'return': return z3.BoolVal(False)
+        if isinstance(v, VNone): return z3.BoolVal(True)
+        if isinstance(v, VBool): return z3.Not(v.t)
+        if isinstance(v, VOpt): return v.none
+        return z3.BoolVal(False)
+
+    def closes(kind, v, s):
+        if kind not in ('fall', 'return'): return z3.BoolVal(False)
+        own = z3.And(z3.Not(fp_none), seekable)
+        return z3.If(own, z3.BoolVal(s.ghost['closed'] == 0), z3.BoolVal(s.ghost['closed'] == 1))
+    run.post(ex, outs, pre, {'returns-a-false-value-exceptions-propagate': never_swallows, 'closes-its-stream-unless-the-resource-owns-a-seekable-file': closes})
